@@ -137,7 +137,7 @@ class ExprMixin:
             if ov is not None:
                 return ov
         if name in mod.funcs:
-            return VFunc(mod.funcs[name], mod, None, name, None)
+            return self.decorated_func(mod, mod.funcs[name], name)
         if name in mod.classes:
             if name in self.exc_h:
                 return VExcClass(name)
@@ -168,6 +168,34 @@ class ExprMixin:
                 return VExcClass(n if n in self.exc_h else full)
             return VBuiltin(full)
         return None
+
+    TRANSPARENT_DECORATORS = ("staticmethod", "classmethod", "contextmanager", "property", "abstractmethod", "overload", "wraps", "functools.wraps", "override")
+
+    def decorated_func(self, mod, node, name):
+        """The module-level binding of a decorated function: decorators that are repo
+        functions are *executed* (their wrapper closes over the inner function), so the
+        registered filter is the composition wrapper(inner) as at import time."""
+        inner = VFunc(node, mod, None, name, None, True)
+        decos = [d for d in node.decorator_list if ast.unparse(d).split("(")[0] not in self.TRANSPARENT_DECORATORS]
+        if not decos:
+            return VFunc(node, mod, None, name, None)
+        key = (mod.name, name)
+        cache = self.__dict__.setdefault("_deco_cache", {})
+        if key in cache:
+            return cache[key]
+        cur = inner
+        tmp = State()
+        tmp.locals["__frame__"] = VConst({"module": mod, "cls": None, "closure": None, "qual": "<module>"})
+        for d in reversed(decos):
+            dv = self.ev(d, tmp)
+            if len(dv) != 1 or isinstance(dv[0][1], Raised):
+                raise Unsupported(f"decorator expression {ast.unparse(d)}")
+            res = self.call_value(dv[0][0], dv[0][1], [cur], {})
+            if len(res) != 1 or isinstance(res[0][1], Raised):
+                raise Unsupported(f"decorator {ast.unparse(d)} did not return a single function")
+            cur = res[0][1]
+        cache[key] = cur
+        return cur
 
     def module_const(self, mod, name, expr):
         """Module-level constants: only literal-like right-hand sides are interpreted."""
